@@ -57,6 +57,56 @@ var props = map[string]propCfg{
 		Bounds:   "all byte strings of length <= 3 (quick) / <= 4 (thorough); one token with every literal content of <= 3 bytes; token sequences of <= 2 (quick) / <= 3 (thorough) tokens over 20 token shapes with symbolic literal bytes; with and without a default field; consumers String, %#v, Render, RenderParam",
 		Outside:  "longer inputs; asymptotic running time; symbolic decimal floats (cut); JSON encoding (see C12)",
 	},
+	"C05": {
+		Quick: []hrun{
+			{Harness: "TreeRoundTrip", Params: P("D", 1, "LEAVES", 1, "VARIANT", 0)},
+			{Harness: "TreeRoundTrip", Params: P("D", 1, "LEAVES", 1, "VARIANT", 1)},
+			{Harness: "TreeRoundTrip", Params: P("D", 1, "LEAVES", 1, "VARIANT", 2)},
+			{Harness: "TreeRoundTrip", Params: P("D", 2, "LEAVES", 0, "VARIANT", 0)},
+			{Harness: "TreeRoundTrip", Params: P("D", 2, "LEAVES", 0, "VARIANT", 1)},
+		},
+		Thorough: []hrun{
+			{Harness: "TreeRoundTrip", Params: P("D", 1, "LEAVES", 1, "VARIANT", 0)},
+			{Harness: "TreeRoundTrip", Params: P("D", 1, "LEAVES", 1, "VARIANT", 1)},
+			{Harness: "TreeRoundTrip", Params: P("D", 1, "LEAVES", 1, "VARIANT", 2)},
+			{Harness: "TreeRoundTrip", Params: P("D", 2, "LEAVES", 0, "VARIANT", 0)},
+			{Harness: "TreeRoundTrip", Params: P("D", 2, "LEAVES", 0, "VARIANT", 1)},
+			{Harness: "TreeRoundTrip", Params: P("D", 2, "LEAVES", 0, "VARIANT", 2)},
+			{Harness: "TreeRoundTrip", Params: P("D", 2, "LEAVES", 2, "VARIANT", 0)},
+		},
+		Bounds:  "all expression trees of depth <= 1 over 18 leaf forms and of depth <= 2 over 3 leaf forms (quick; thorough adds depth 2 over 8 leaf forms), 7 operators incl. default and explicit powers/distances, leaves with symbolic bytes (field names, 2-byte strings, 1-2 digit integers); minimal and fully redundant parenthesisation, wide spacing",
+		Outside: "deeper trees; literal contents outside the hole classes (covered by C06/C08/C01 tiers)",
+	},
+	"C07": {
+		Quick:    []hrun{{Harness: "TreeJuxtapose", Params: P("D", 2, "LEAVES", 0), InfoOnly: []string{"juxt-accepted"}}, {Harness: "TreeJuxtapose", Params: P("D", 1, "LEAVES", 1), InfoOnly: []string{"juxt-accepted"}}},
+		Thorough: []hrun{{Harness: "TreeJuxtapose", Params: P("D", 2, "LEAVES", 0), InfoOnly: []string{"juxt-accepted"}}, {Harness: "TreeJuxtapose", Params: P("D", 1, "LEAVES", 1), InfoOnly: []string{"juxt-accepted"}}, {Harness: "TreeJuxtapose", Params: P("D", 2, "LEAVES", 2), InfoOnly: []string{"juxt-accepted"}}},
+		Bounds:   "all trees as in C05 that contain an AND node, each AND node in turn written as juxtaposition; both texts parsed by the real parser",
+		Outside:  "several gaps at once; deeper trees; a juxtaposition the parser rejects is informational (eligibility is defined by the parser accepting the text)",
+	},
+	"C09": {
+		Quick: []hrun{
+			{Harness: "TreeLayout", Params: P("D", 1, "LEAVES", 1, "VARIANT", 0)}, {Harness: "TreeLayout", Params: P("D", 1, "LEAVES", 1, "VARIANT", 1)}, {Harness: "TreeLayout", Params: P("D", 1, "LEAVES", 1, "VARIANT", 2)},
+			{Harness: "TreeLayout", Params: P("D", 2, "LEAVES", 0, "VARIANT", 0)}, {Harness: "TreeLayout", Params: P("D", 2, "LEAVES", 0, "VARIANT", 1)},
+		},
+		Thorough: []hrun{
+			{Harness: "TreeLayout", Params: P("D", 1, "LEAVES", 1, "VARIANT", 0)}, {Harness: "TreeLayout", Params: P("D", 1, "LEAVES", 1, "VARIANT", 1)}, {Harness: "TreeLayout", Params: P("D", 1, "LEAVES", 1, "VARIANT", 2)},
+			{Harness: "TreeLayout", Params: P("D", 2, "LEAVES", 0, "VARIANT", 0)}, {Harness: "TreeLayout", Params: P("D", 2, "LEAVES", 0, "VARIANT", 1)}, {Harness: "TreeLayout", Params: P("D", 2, "LEAVES", 0, "VARIANT", 2)},
+		},
+		Bounds:  "trees as in C05; variants: every gap widened to space+tab plus leading/trailing white space, lower/mixed-case keywords, one redundant pair of parentheses around any one node",
+		Outside: "white space characters other than space, tab, CR, LF; whitespace inside quoted phrases",
+	},
+	"C11": {
+		Quick: []hrun{
+			{Harness: "TreeDefaultField", Params: P("D", 1, "LEAVES", 1, "DFKIND", 0)}, {Harness: "TreeDefaultField", Params: P("D", 1, "LEAVES", 1, "DFKIND", 1)},
+			{Harness: "TreeDefaultField", Params: P("D", 2, "LEAVES", 0, "DFKIND", 0)},
+		},
+		Thorough: []hrun{
+			{Harness: "TreeDefaultField", Params: P("D", 1, "LEAVES", 1, "DFKIND", 0)}, {Harness: "TreeDefaultField", Params: P("D", 1, "LEAVES", 1, "DFKIND", 1)},
+			{Harness: "TreeDefaultField", Params: P("D", 2, "LEAVES", 0, "DFKIND", 0)}, {Harness: "TreeDefaultField", Params: P("D", 2, "LEAVES", 2, "DFKIND", 0)},
+		},
+		Bounds:  "trees as in C05; default field names of 2-3 symbolic bytes (identifier-like, and one needing quoting) disjoint from the query's fields",
+		Outside: "deeper trees",
+	},
 	"C10": {
 		Quick:    withOnly(append(parseRuns(false), ctxRuns(false)...), c10ids, false),
 		Thorough: withOnly(append(parseRuns(true), ctxRuns(true)...), c10ids, false),
